@@ -123,7 +123,7 @@ def failure_kind(ex, rec):
 
 
 def run_impl(doc, on_error='return', pytest_mode=False, default_state=None, inject=None, verbose=0,
-             prebuilt=None):
+             prebuilt=None, prelude=None):
     """returns (canonical result, example, recorder)"""
     from xdoctest import doctest_example
     ex = prebuilt if prebuilt is not None else doctest_example.DocTest(docsrc=doc, lineno=1)
@@ -137,6 +137,8 @@ def run_impl(doc, on_error='return', pytest_mode=False, default_state=None, inje
     ex.global_namespace['TRACE'] = trace
     if inject:
         ex.global_namespace.update(inject)
+    if prelude:
+        exec(prelude, ex.global_namespace)
     rec = Recorder(ex)
     rec.install(doctest_example)
     res = {'end': None, 'failure': None, 'failed_part': None}
@@ -283,7 +285,7 @@ def run_both_many(cases):
     impls, reqs, exs = [], [], []
     for c in cases:
         impl, ex, rec = run_impl(c['doc'], c.get('on_error', 'return'), c.get('pytest_mode', False),
-                                 c.get('default_state'), c.get('inject'))
+                                 c.get('default_state'), c.get('inject'), prelude=c.get('prelude'))
         impls.append(impl)
         exs.append(ex)
         reqs.append(model_request(ex, rec, c.get('on_error', 'return'), c.get('pytest_mode', False),
